@@ -1,0 +1,36 @@
+//go:build verif
+
+// Contracts checked by /verif (gocv). Comment-only; compiled only with -tags verif.
+
+package model
+
+// VectorPool: assumed (sync.Pool hand-off). A Get is treated as a fresh allocation owned by the
+// caller; the pool discipline "whatever is Put is no longer used by the putter" is not checked.
+//@ func (*VectorPool).GetVectorBatch
+//@   trusted sync.Pool ownership discipline: a Get is a fresh allocation
+//@   requires p != nil
+//@   ensures len(result) == 0 && fresh(result) && !isnil(result)
+//@
+//@ func (*VectorPool).GetStepVector
+//@   trusted sync.Pool ownership discipline: a Get is a fresh allocation
+//@   requires p != nil
+//@   ensures result.T == t
+//@   ensures len(result.SampleIDs) == 0 && fresh(result.SampleIDs) && !isnil(result.SampleIDs)
+//@   ensures len(result.Samples) == 0 && fresh(result.Samples) && !isnil(result.Samples)
+//@
+//@ func (*VectorPool).PutVectors
+//@   trusted sync.Pool ownership discipline
+//@   requires p != nil
+//@
+//@ func (*VectorPool).PutStepVector
+//@   trusted sync.Pool ownership discipline
+//@   requires p != nil
+//@
+//@ func (*VectorPool).SetStepSize
+//@   requires p != nil
+//@   assigns model.VectorPool.stepSize
+//@   ensures p.stepSize == n
+//@
+//@ func NewVectorPool
+//@   trusted constructs sync.Pool closures
+//@   ensures result != nil && fresh(result)
